@@ -142,6 +142,7 @@ static int xmit_bn(sess_t *s, const char *field, bn_t dst, const bn_t src, size_
 		else if (!strcmp(f->kind, "v_inc")) bn_add_dig(t, t, 1);
 		else if (!strcmp(f->kind, "v_neg")) bn_neg(t, t);
 		else if (!strcmp(f->kind, "v_rand")) bn_rand_mod(t, ord);
+		else if (!strcmp(f->kind, "v_big")) { bn_lsh(t, t, 64 + (uint_t)(f->a % 700)); bn_add_dig(t, t, 1); }
 	}
 	size_t l = bn_size_bin(t);
 	if (w > l) l = w;
@@ -355,9 +356,9 @@ static int xmit_gt(sess_t *s, const char *field, gt_t dst, const gt_t src, int p
 	gt_write_bin(wire, l, t, pack);
 	if (f) l = wire_fault(wire, l, f);
 	tr_printf("MSG %d %s gt kind=%s orig=", s->sid, field, fk(f));
-	tr_hex(wire2, l0 > 64 ? 64 : l0);
+	tr_hex(wire2, l0);
 	tr_str(" sent=");
-	tr_hex(wire, l > 64 ? 64 : l);
+	tr_hex(wire, l);
 	int same = (l == l0 && memcmp(wire, wire2, l) == 0);
 	RLC_TRY {
 		gt_read_bin(dst, wire, l);
